@@ -7,7 +7,7 @@ PROP=$1; OUT=$2; shift 2
 TAGS=(); while [ "$1" != "--" ]; do TAGS+=("$1"); shift; done; shift
 IDS="$@"
 i=0
-for sfx in "" 2 3; do
+for sfx in "" 2 3 4; do
   [ -f "$OUT/patch$sfx.diff" ] || continue
   TAG=${TAGS[$i]:-}; i=$((i+1)); [ -n "$TAG" ] || break
   NAME=$PROP-$TAG; WT=/tmp/mut/t-$NAME
